@@ -409,3 +409,10 @@ contract("C15", "hmc_take_step", native=False, replay_with="advance_native")(hmc
 
 
 from contracts.mcmc_native import default_widths_native  # noqa: registers the bounded contract (chains built with derived widths)
+
+
+# "every sampler" includes chains advanced under parallel tempering: advance(n, swap_interval) advances every chain by exactly n,
+# whatever the relation of n to the swap interval -- the C08 contract and its real-process harness, checked here as well
+from contracts.c08_tempering import advance_step_count as _asc, tempering_native as _tpn
+contract("C15", "tempering_advance_step_count", native=False, replay_with="tempering_native")(_asc)
+bounded("C15", "tempering_native", native_runs=3)(_tpn)
